@@ -64,6 +64,8 @@ def run_one(sid, tier, checks, procs):
                               'VF_PROCS': str(procs), 'VF_NO_SHRINK': os.environ.get('VF_NO_SHRINK', '1')}, timeout=7200)
             lines = [l for l in out.splitlines() if l.startswith('VIOLATION') or l.strip().startswith('bucket=') or 'HARNESS' in l]
             res['checks'][c] = {'exit': rc, 'wall_s': round(time.time() - t0, 1), 'lines': lines[:8]}
+            if rc not in (0, 1):
+                res['checks'][c]['tail'] = [l[:300] for l in out.splitlines() if 'classes:' not in l][-30:]
         return res
     except subprocess.TimeoutExpired as e:
         res['error'] = f'timeout {e}'
